@@ -93,8 +93,8 @@ fn case_params(shard_seed: u64, iter: u64, replay: Option<&Value>) -> CaseParams
         } else {
             Enc::Parquet(*pick(&mut rng, &[0u8, 1, 3]))
         },
-        src: if chance(&mut rng, 10) { Backend::Rocks } else { Backend::Memory },
-        dst: if chance(&mut rng, 10) { Backend::Rocks } else { Backend::Memory },
+        src: if chance(&mut rng, 6) { Backend::Rocks } else { Backend::Memory },
+        dst: if chance(&mut rng, 6) { Backend::Rocks } else { Backend::Memory },
     };
     if let Some(r) = replay {
         // the recorded parameters win (they are what was actually executed)
@@ -563,7 +563,7 @@ pub fn run(args: &Args, report: &Report) -> (String, Vec<&'static str>) {
     }
 
     let shards = args.by_tier(32usize, 128usize);
-    let iters = args.by_tier(24u64, 110u64);
+    let iters = args.by_tier(14u64, 80u64);
     {
         let report = report.clone();
         let args2 = args.clone();
@@ -582,16 +582,16 @@ pub fn run(args: &Args, report: &Report) -> (String, Vec<&'static str>) {
         for gs in GROUP_SIZES {
             report.require(&format!("cases.group_size.{}", snapio::gs_name(gs)), n / 12);
         }
-        report.require("cases.contract_storage_spans_groups", n / 3);
-        report.require("cases.contract_storage_spans_3plus_groups", n / 8);
-        report.require("cases.with_table_of_10plus_groups", n / 20);
+        report.require("cases.contract_storage_spans_groups", n / 2);
+        report.require("cases.contract_storage_spans_3plus_groups", n * 2 / 5);
+        report.require("cases.with_table_of_10plus_groups", n / 8);
         report.require("cases.with_contract_without_slots", n / 2);
         report.require("rows.compared.ContractsState", n * 5);
         report.require("rows.compared.ProcessedTransactions", n);
         report.require("rows.compared.FuelBlockMerkleData", n);
         report.require("merkle_root.compared", n / 3);
-        report.require("cases.target.rocksdb", 1);
-        report.require("cases.source.rocksdb", 1);
+        report.require("cases.target.rocksdb", 5);
+        report.require("cases.source.rocksdb", 5);
     } else {
         report.require("selftest.perturbed", 1);
     }
